@@ -622,7 +622,12 @@ static Token *subst(Token *tok, MacroArg *args) {
     MacroArg *arg = find_arg(args, tok);
 
     if (arg && equal(tok->next, "##")) {
+      Token *arg_tok = tok;
       Token *rhs = tok->next->next;
+
+      // The result takes the place of the parameter in the replacement
+      // list, so its first token has the white space of the parameter.
+      Token *prev = cur;
 
       if (arg->tok->kind == TK_EOF) {
         MacroArg *arg2 = find_arg(args, rhs);
@@ -633,12 +638,16 @@ static Token *subst(Token *tok, MacroArg *args) {
           cur = cur->next = copy_token(rhs);
         }
         tok = rhs->next;
-        continue;
+      } else {
+        for (Token *t = arg->tok; t->kind != TK_EOF; t = t->next)
+          cur = cur->next = copy_token(t);
+        tok = tok->next;
       }
 
-      for (Token *t = arg->tok; t->kind != TK_EOF; t = t->next)
-        cur = cur->next = copy_token(t);
-      tok = tok->next;
+      if (prev != cur) {
+        prev->next->at_bol = false;
+        prev->next->has_space = arg_tok->has_space;
+      }
       continue;
     }
 
